@@ -970,6 +970,9 @@ func (i *interpreter) keyLess(a, b value) bool {
 		if bs, ok := b.(string); ok {
 			return a < bs
 		}
+		if _, ok := b.(*symKey); ok {
+			return true
+		}
 	case *value:
 		if bp, ok := b.(*value); ok {
 			return i.ptrSeq[a] < i.ptrSeq[bp]
@@ -1007,6 +1010,11 @@ func (i *interpreter) keyLess(a, b value) bool {
 		if bb, ok := b.(bool); ok {
 			return !a && bb
 		}
+	case *symKey: // after every concrete string, by first insertion
+		if bk, ok := b.(*symKey); ok {
+			return a.seq < bk.seq
+		}
+		return false
 	case float64:
 		if bf, ok := b.(float64); ok {
 			return a < bf
@@ -1057,7 +1065,7 @@ func (it *sortedMapIter) next() tuple {
 		it.i++
 		// entries deleted during iteration are skipped, as in Go
 		if v, ok := it.get(k); ok {
-			return []value{true, k, v}
+			return []value{true, unwrapKey(k), v}
 		}
 	}
 	return []value{false, nil, nil}
